@@ -584,9 +584,23 @@ class TokenizerModel:
                    for x in ast.walk(ast.Module(body=chain.body, type_ignores=[]))):
                 tests = chain.test.values if isinstance(chain.test, ast.BoolOp) and isinstance(chain.test.op, ast.And) else [chain.test]
                 txt = [norm(t) for t in tests]
-                ns = [t for t in tests if isinstance(t, ast.Compare) and len(t.ops) == 1 and isinstance(t.ops[0], (ast.NotEq, ast.IsNot))
+                # a conjunct `self.<helper>()`: the helper's own tests are read in its place
+                helper_src = ""
+                expanded = []
+                for t in tests:
+                    if isinstance(t, ast.Call) and isinstance(t.func, ast.Attribute) and norm(t.func.value) == "self" and not t.args and \
+                            t.func.attr in self.cls.methods:
+                        h = self.cls.methods[t.func.attr]
+                        helper_src += " " + " ".join(norm(h.node).split())
+                        expanded += [x for x in ast.walk(h.node) if isinstance(x, ast.Compare)]
+                    else:
+                        expanded.append(t)
+                ns = [t for t in expanded if isinstance(t, ast.Compare) and len(t.ops) == 1 and isinstance(t.ops[0], (ast.NotEq, ast.IsNot))
                       and norm(t.left) in ("self.parser.tree.openElements[-1].namespace", "self.parser.tree.defaultNamespace")]
-                if not ("charStack[-1] == '['" in txt and "self.parser is not None" in txt and "self.parser.tree.openElements" in txt and len(ns) == 1):
+                has_parser = "self.parser is not None" in txt or "self.parser is None" in helper_src or "self.parser is not None" in helper_src
+                has_stack = "self.parser.tree.openElements" in txt or "bool(self.parser.tree.openElements)" in helper_src or \
+                    "not self.parser.tree.openElements" in helper_src or "self.parser.tree.openElements and" in helper_src
+                if not ("charStack[-1] == '['" in txt and has_parser and has_stack and len(ns) == 1):
                     return False
                 other = ns[0].comparators[0] if norm(ns[0].left).endswith(".namespace") else ns[0].left
                 if norm(other) == "self.parser.tree.openElements[-1].namespace":
